@@ -126,6 +126,8 @@ type Exec struct {
 	pending       []pendingPanic
 	ufApps        map[string][][2]*smt.Term
 	ufLog         []ufLogEntry
+	intTabs       map[string][]int64
+	intPairs      map[string]string // table name -> inverse partner
 	watchOff      bool
 	Shared        *Shared
 	endWhy        string
@@ -1184,6 +1186,10 @@ func (e *Exec) instr(fr *Frame, ins ssa.Instruction) {
 				return
 			}
 		}
+		if lt := e.toIdx64(e.term(fr, x.Len), x.Len.Type()); !lt.IsConst() && e.Cfg.AllocLimit > 0 {
+			e.check("assert", "alloc:slice-length@"+fr.fn.Name(), smt.BvCmp(smt.OBvSle, lt, smt.BVC(64, uint64(e.Cfg.AllocLimit))))
+			e.assume(smt.BvCmp(smt.OBvSle, lt, smt.BVC(64, uint64(e.Cfg.AllocLimit))))
+		}
 		n := int(e.concretize(e.term(fr, x.Len), "make len"))
 		c := int(e.concretize(e.term(fr, x.Cap), "make cap"))
 		if n < 0 || c < n {
@@ -1196,6 +1202,13 @@ func (e *Exec) instr(fr *Frame, ins ssa.Instruction) {
 		et := x.Type().Underlying().(*types.Slice).Elem()
 		fr.vals[x] = &Slice{Back: newCells(c, func(int) Value { return zeroValue(et) }), Len: n, Cap: c}
 	case *ssa.MakeMap:
+		if x.Reserve != nil {
+			rt := e.toIdx64(e.term(fr, x.Reserve), x.Reserve.Type())
+			if !rt.IsConst() && e.Cfg.AllocLimit > 0 {
+				// allocation sized by a symbolic count: must stay within the harness's budget
+				e.check("assert", "alloc:map-size-hint@"+fr.fn.Name(), smt.BvCmp(smt.OBvSle, rt, smt.BVC(64, uint64(e.Cfg.AllocLimit))))
+			}
+		}
 		fr.vals[x] = &Map{M: &MapObj{}}
 	case *ssa.MapUpdate:
 		e.mapUpdate(e.get(fr, x.Map), e.get(fr, x.Key), e.get(fr, x.Value))
@@ -1215,7 +1228,8 @@ func (e *Exec) instr(fr *Frame, ins ssa.Instruction) {
 		case *Map:
 			it := &MapIter{}
 			if m.M != nil {
-				it.M = e.mapRead(m.M)
+				it.M = m.M
+				it.Keys = append([]Value(nil), e.mapRead(m.M).Keys...)
 			}
 			fr.vals[x] = it
 		case *Str:
@@ -1350,6 +1364,9 @@ func (e *Exec) selectCells(cells []*Cell, idx *smt.Term) Value {
 			allConst = false
 		}
 	}
+	if idx.Sort.K == smt.KInt {
+		return e.intTableLookup(vals, idx)
+	}
 	return selectTerms(vals, idx, allConst)
 }
 
@@ -1376,6 +1393,9 @@ func selectTerms(vals []*smt.Term, idx *smt.Term, allConst bool) *smt.Term {
 }
 
 func (e *Exec) toIdx64(t *smt.Term, typ types.Type) *smt.Term {
+	if t.Sort.K == smt.KInt {
+		return t
+	}
 	w, signed, _ := intWidth(typ)
 	if w == 64 {
 		return t
@@ -1388,6 +1408,9 @@ func (e *Exec) toIdx64(t *smt.Term, typ types.Type) *smt.Term {
 
 // inRange: 0 <= idx < n as a term (idx BV64 signed).
 func inRange(idx *smt.Term, n int) *smt.Term {
+	if idx.Sort.K == smt.KInt {
+		return smt.And(smt.IntCmp(smt.OIntLe, smt.IntC(0), idx), smt.IntCmp(smt.OIntLt, idx, smt.IntC(int64(n))))
+	}
 	return smt.BvCmp(smt.OBvUlt, idx, smt.BVC(64, uint64(n)))
 }
 
@@ -1418,7 +1441,7 @@ func (e *Exec) indexAddr(fr *Frame, x *ssa.IndexAddr) Value {
 	default:
 		e.unsupported("indexaddr on %T", base)
 	}
-	if iv, ok := idx.ConstS(); ok {
+	if iv, ok := constIdx(idx); ok {
 		if iv < 0 || int(iv) >= len(cells) {
 			e.raisePanic(fmt.Sprintf("index out of range [%d] with length %d", iv, len(cells)))
 		}
@@ -1427,6 +1450,9 @@ func (e *Exec) indexAddr(fr *Frame, x *ssa.IndexAddr) Value {
 	e.panicCheck("index out of range", inRange(idx, len(cells)))
 	if len(cells) == 1 {
 		return &Pointer{C: cells[0]}
+	}
+	if idx.Sort.K == smt.KInt {
+		return &Pointer{Arr: cells, Idx: idx}
 	}
 	if len(cells) > 0 && cells[0].Sub == nil {
 		if _, scalar := e.load(cells[0]).(*smt.Term); !scalar {
@@ -1460,8 +1486,18 @@ func (e *Exec) index(fr *Frame, x *ssa.Index) Value {
 	return nil
 }
 
+func constIdx(idx *smt.Term) (int64, bool) {
+	if idx.Sort.K == smt.KInt {
+		if idx.Op == smt.OConst && idx.Big.IsInt64() {
+			return idx.Big.Int64(), true
+		}
+		return 0, false
+	}
+	return idx.ConstS()
+}
+
 func (e *Exec) indexVals(vals []Value, idx *smt.Term) Value {
-	if iv, ok := idx.ConstS(); ok {
+	if iv, ok := constIdx(idx); ok {
 		if iv < 0 || int(iv) >= len(vals) {
 			e.raisePanic(fmt.Sprintf("index out of range [%d] with length %d", iv, len(vals)))
 		}
@@ -1479,6 +1515,9 @@ func (e *Exec) indexVals(vals []Value, idx *smt.Term) Value {
 		if !t.IsConst() || t.Sort.K != smt.KBV || t.Sort.W > 64 {
 			allConst = false
 		}
+	}
+	if idx.Sort.K == smt.KInt {
+		return e.intTableLookup(ts, idx)
 	}
 	return selectTerms(ts, idx, allConst)
 }
